@@ -171,7 +171,37 @@ def check_c17(pid, tier):
     return c17.check(pid, tier)
 
 
-CHECKS = {"C17": check_c17, "C15": check_c15, "C18": check_c18, "C02": check_g4, "C03": check_g4, "C05": check_g1, "C07": check_g1, "C09": check_g1, "C08": check_g2}
+def check_g7(pid, tier):
+    from . import g7
+
+    t0 = time.time()
+    pts = g7.lattice(tier)
+    if pid == "C14":
+        pts = [p for p in pts if p.mode != "eager" or not p.dialect_support]
+    elif pid == "C13":
+        pts = [p for p in pts if p.dialect_support]
+    elif pid == "C04":
+        pts = [p for p in pts if p.mixin != "dict" and p.call_dialect in ("none", "strategy")]
+    res = runner.run_pool(g7.g7_task, [(pid, p) for p in pts], chunks=1)
+    extra = []
+    if pid in g7.EXTRA:
+        extra = g7.EXTRA[pid](pid, tier)
+    obs, crashes, trusted = _collect(res)
+    obs += extra
+    return runner.finish(
+        pid, tier, obs, t0,
+        technique="contract obligations evaluated on the real generated texts: (params) builder parameters = the mixin's declaration, (stubs) every embedded rebuild call restores its own slot with the same class/format/coder/default dialect and cannot be lazy again, cache names are per format, flags are forwarded; (semantic) each compiled unit, after the first call, is proved by symbolic execution (pysym, z3) equal to encoder(PROJECT(REF_ENC)) / FROM_SPEC(decoder(.)) under its effective dialect - the shared reference term that makes lazy == eager and dialect=D == default dialect D",
+        units=len(pts),
+        extra_cov={"points": len(pts), "explanation": "per schema point: first_call, params, stubs obligations and one semantic obligation per compiled unit (default and call-dialect)"},
+        trusted=trusted | {"A8: third-party encoders/decoders (orjson, msgpack, tomli, tomli_w, yaml, json) are opaque and total on their representable subset",
+                           "first calls are executed natively once per entry point to make the stubs compile (their outcome is an obligation, the proof is on the compiled text)"},
+        functions=["CodeBuilder._add_unpack_method_lines_lazy / _add_pack_method_lines_lazy / _add_*_method_with_dialect_lines / _add_setattr_method / add_pack_method / add_unpack_method (through the texts they produce)",
+                   "compile_mixin_packer / compile_mixin_unpacker wiring (params obligations)"],
+        crashes=crashes,
+    )
+
+
+CHECKS = {"C04": check_g7, "C13": check_g7, "C14": check_g7, "C17": check_c17, "C15": check_c15, "C18": check_c18, "C02": check_g4, "C03": check_g4, "C05": check_g1, "C07": check_g1, "C09": check_g1, "C08": check_g2}
 
 
 def main(argv):
